@@ -98,6 +98,41 @@ def _check_uint_types():
             raise GenError(f"cip.{n}: size/format is not the unsigned little-endian {size}-byte integer")
 
 
+def _split_locals(stmts, where):
+    """[<local> = <expr>]* return <expr>  ->  ({local: expr}, return expr).  Every local is assigned once;
+    local NAMES are free (a harmless rename stays quiet); anything else fails closed."""
+    env = {}
+    if not stmts or not isinstance(stmts[-1], ast.Return) or stmts[-1].value is None:
+        raise GenError(f"{where}: does not end with `return <expr>`")
+    for st in stmts[:-1]:
+        if not (isinstance(st, ast.Assign) and len(st.targets) == 1 and isinstance(st.targets[0], ast.Name)):
+            raise GenError(f"{where}: unsupported statement {ast.dump(st)[:80]}")
+        if st.targets[0].id in env:
+            raise GenError(f"{where}: local {st.targets[0].id} assigned twice")
+        env[st.targets[0].id] = st.value
+    return env, stmts[-1].value
+
+
+def _deref(e, env, keep=()):
+    """follow single-assignment locals (not the names in `keep`)"""
+    seen = 0
+    while isinstance(e, ast.Name) and e.id in env and e.id not in keep and seen < 20:
+        e = env[e.id]
+        seen += 1
+    return e
+
+
+def _join_elts(e, env, where):
+    """b"".join(<list display or a local bound to one>) -> the elements"""
+    if (isinstance(e, ast.Call) and isinstance(e.func, ast.Attribute) and e.func.attr == "join"
+            and isinstance(e.func.value, ast.Constant) and e.func.value.value == b""
+            and len(e.args) == 1 and not e.keywords):
+        arg = _deref(e.args[0], env)
+        if isinstance(arg, (ast.List, ast.Tuple)):
+            return arg.elts
+    raise GenError(f"{where}: does not return b\"\".join([...])")
+
+
 def _self_attr(e):
     if isinstance(e, ast.Attribute) and isinstance(e.value, ast.Name) and e.value.id == "self":
         return e.attr
@@ -122,29 +157,27 @@ def header_layout(cls):
     wrapped = None
     if len(body) == 1 and isinstance(body[0], ast.Try):
         t = body[0]
-        if t.orelse or t.finalbody or len(t.handlers) != 1 or len(t.body) != 1:
+        if t.orelse or t.finalbody or len(t.handlers) != 1:
             raise GenError("RequestPacket._build_header: unexpected try shape")
         h = t.handlers[0]
         if not (isinstance(h.type, ast.Name) and h.type.id == "Exception" and len(h.body) == 1 and isinstance(h.body[0], ast.Raise)
                 and isinstance(h.body[0].exc, ast.Call) and isinstance(h.body[0].exc.func, ast.Name)):
             raise GenError("RequestPacket._build_header: handler is not `except Exception: raise <Error>(...)`")
         wrapped = h.body[0].exc.func.id
-        ret = t.body[0]
-    elif len(body) == 1:
-        ret = body[0]
-    else:
-        raise GenError("RequestPacket._build_header: expected a single (try:) return")
-    if not (isinstance(ret, ast.Return) and _is_bytes_join(ret.value)):
-        raise GenError("RequestPacket._build_header: does not return b\"\".join([...])")
+        body = t.body
+    env, ret = _split_locals(body, "RequestPacket._build_header")
+    if set(env) & set(params):
+        raise GenError("RequestPacket._build_header: a parameter is reassigned")
     fields = []
-    for e in ret.value.args[0].elts:
+    for e0 in _join_elts(_deref(ret, env), env, "RequestPacket._build_header"):
+        e = _deref(e0, env)
         if isinstance(e, ast.Constant) and isinstance(e.value, bytes):
             fields.append(("lit", e.value))
         elif isinstance(e, ast.Name) and e.id in pos:
             fields.append(("raw", pos[e.id]))
-        elif _enc_call(e) and isinstance(_enc_call(e)[1], ast.Name) and _enc_call(e)[1].id in pos:
+        elif _enc_call(e) and isinstance(_deref(_enc_call(e)[1], env), ast.Name) and _deref(_enc_call(e)[1], env).id in pos:
             t, a = _enc_call(e)
-            fields.append(("enc", UINT_TYPES[t], pos[a.id]))
+            fields.append(("enc", UINT_TYPES[t], pos[_deref(a, env).id]))
         else:
             raise GenError(f"RequestPacket._build_header: unsupported join element {ast.dump(e)[:80]}")
     if wrapped not in (None, "CommError", "DataError", "RequestError", "ResponseError"):
@@ -163,46 +196,47 @@ def cpf_layout(cls):
     if len(params) != 2 or len(fn.args.defaults) != 1 or not (isinstance(fn.args.defaults[0], ast.Constant) and fn.args.defaults[0].value is None):
         raise GenError("RequestPacket._build_common_packet_format: expected (self, message, addr_data=None)")
     p_msg, p_addr = params
-    body = _body(fn)
-    if len(body) != 2:
-        raise GenError("RequestPacket._build_common_packet_format: expected `addr_data = ...` then `return b\"\".join([...])`")
-    asg, ret = body
-    # addr_data = (<lit> if addr_data is None else <T>.encode(len(addr_data)) + addr_data)
-    if not (isinstance(asg, ast.Assign) and len(asg.targets) == 1 and isinstance(asg.targets[0], ast.Name) and asg.targets[0].id == p_addr
-            and isinstance(asg.value, ast.IfExp)):
-        raise GenError("RequestPacket._build_common_packet_format: first statement is not `addr_data = <a> if <c> else <b>`")
-    ie = asg.value
-    c = ie.test
-    if not (isinstance(c, ast.Compare) and isinstance(c.left, ast.Name) and c.left.id == p_addr and len(c.ops) == 1
-            and isinstance(c.ops[0], ast.Is) and isinstance(c.comparators[0], ast.Constant) and c.comparators[0].value is None):
-        raise GenError("RequestPacket._build_common_packet_format: condition is not `addr_data is None`")
-    if not (isinstance(ie.body, ast.Constant) and isinstance(ie.body.value, bytes)):
-        raise GenError("RequestPacket._build_common_packet_format: the None branch is not a bytes literal")
-    none_lit = ie.body.value
-    e = ie.orelse
-    ok = (isinstance(e, ast.BinOp) and isinstance(e.op, ast.Add) and isinstance(e.right, ast.Name) and e.right.id == p_addr and _enc_call(e.left))
-    if ok:
-        t, a = _enc_call(e.left)
-        ok = (isinstance(a, ast.Call) and isinstance(a.func, ast.Name) and a.func.id == "len" and len(a.args) == 1
-              and isinstance(a.args[0], ast.Name) and a.args[0].id == p_addr)
-    if not ok:
-        raise GenError("RequestPacket._build_common_packet_format: the else branch is not `<T>.encode(len(addr_data)) + addr_data`")
-    addr_len_size = UINT_TYPES[t]
-    if not (isinstance(ret, ast.Return) and _is_bytes_join(ret.value)):
-        raise GenError("RequestPacket._build_common_packet_format: does not return b\"\".join([...])")
+    env, ret = _split_locals(_body(fn), "RequestPacket._build_common_packet_format")
+    if p_msg in env:
+        raise GenError("RequestPacket._build_common_packet_format: the message parameter is reassigned")
+
+    def is_len_of(a, name):
+        return (isinstance(a, ast.Call) and isinstance(a.func, ast.Name) and a.func.id == "len" and len(a.args) == 1
+                and not a.keywords and isinstance(a.args[0], ast.Name) and a.args[0].id == name)
+
+    def addr_item(ie):
+        """<lit> if <addr param> is None else <T>.encode(len(<addr param>)) + <addr param>  -> (lit, size) else None"""
+        if not isinstance(ie, ast.IfExp):
+            return None
+        c = ie.test
+        if not (isinstance(c, ast.Compare) and isinstance(c.left, ast.Name) and c.left.id == p_addr and len(c.ops) == 1
+                and isinstance(c.ops[0], ast.Is) and isinstance(c.comparators[0], ast.Constant) and c.comparators[0].value is None):
+            raise GenError("RequestPacket._build_common_packet_format: condition is not `addr_data is None`")
+        if not (isinstance(ie.body, ast.Constant) and isinstance(ie.body.value, bytes)):
+            raise GenError("RequestPacket._build_common_packet_format: the None branch is not a bytes literal")
+        e = ie.orelse
+        if not (isinstance(e, ast.BinOp) and isinstance(e.op, ast.Add) and isinstance(e.right, ast.Name) and e.right.id == p_addr
+                and _enc_call(e.left) and is_len_of(_enc_call(e.left)[1], p_addr)):
+            raise GenError("RequestPacket._build_common_packet_format: the else branch is not `<T>.encode(len(addr_data)) + addr_data`")
+        return ie.body.value, UINT_TYPES[_enc_call(e.left)[0]]
+
+    # the address item: the (possibly re-assigned) parameter or any local, bound once to the conditional
+    items = {n: addr_item(v) for n, v in env.items() if isinstance(v, ast.IfExp)}
+    if len(items) != 1:
+        raise GenError("RequestPacket._build_common_packet_format: expected exactly one `<local> = <lit> if addr_data is None else ...`")
+    (addr_local, (none_lit, addr_len_size)), = items.items()
     fields = []
-    for e in ret.value.args[0].elts:
+    for e0 in _join_elts(_deref(ret, env, keep=(addr_local,)), env, "RequestPacket._build_common_packet_format"):
+        e = _deref(e0, env, keep=(addr_local,))
         if isinstance(e, ast.Constant) and isinstance(e.value, bytes):
             fields.append(("lit", e.value))
         elif _self_attr(e) in CATTRS:
             fields.append(("attr", CATTRS[_self_attr(e)]))
-        elif isinstance(e, ast.Name) and e.id == p_addr:
+        elif isinstance(e, ast.Name) and e.id == addr_local:
             fields.append(("addr",))
         elif isinstance(e, ast.Name) and e.id == p_msg:
             fields.append(("msg",))
-        elif (_enc_call(e) and isinstance(_enc_call(e)[1], ast.Call) and isinstance(_enc_call(e)[1].func, ast.Name)
-              and _enc_call(e)[1].func.id == "len" and len(_enc_call(e)[1].args) == 1
-              and isinstance(_enc_call(e)[1].args[0], ast.Name) and _enc_call(e)[1].args[0].id == p_msg):
+        elif _enc_call(e) and is_len_of(_enc_call(e)[1], p_msg):
             fields.append(("msglen", UINT_TYPES[_enc_call(e)[0]]))
         else:
             raise GenError(f"RequestPacket._build_common_packet_format: unsupported join element {ast.dump(e)[:80]}")
@@ -325,7 +359,29 @@ SOURCES = {"_target_cid": "SelfTargetCid", "_session": "SelfSession", "_sequence
 CFG_SOURCES = {"context": "CfgContext", "option": "CfgOption", "protocol version": "CfgProtocolVersion"}
 
 
-def _src(e, where):
+def _fn_env(fn):
+    """single-assignment simple locals of a function (names are free): {name: expr}"""
+    count, env = {}, {}
+    params = {a.arg for a in fn.args.args}
+    for n in ast.walk(fn):
+        tgts = []
+        if isinstance(n, ast.Assign):
+            tgts = [(t, n.value) for t in n.targets]
+        elif isinstance(n, ast.AnnAssign) and n.value is not None:
+            tgts = [(n.target, n.value)]
+        elif isinstance(n, (ast.AugAssign, ast.For, ast.With, ast.NamedExpr)):
+            for t in ast.walk(n.target if hasattr(n, "target") else n):
+                if isinstance(t, ast.Name) and isinstance(t.ctx, ast.Store):
+                    count[t.id] = count.get(t.id, 0) + 2
+        for t, v in tgts:
+            if isinstance(t, ast.Name):
+                count[t.id] = count.get(t.id, 0) + 1
+                env[t.id] = v
+    return {k: v for k, v in env.items() if count.get(k) == 1 and k not in params}
+
+
+def _src(e, where, env=None):
+    e = _deref(e, env or {})
     a = _self_attr(e)
     if a in SOURCES:
         return SOURCES[a]
@@ -384,26 +440,40 @@ def driver_facts(tree):
     send = _method(cls, "send")
     if send is None:
         raise GenError("CIPDriver.send: missing")
-    dicts = [n for n in ast.walk(send) if isinstance(n, ast.Dict)]
-    if len(dicts) != 1:
-        raise GenError("CIPDriver.send: expected exactly one dict literal (the request keyword arguments)")
-    d = dicts[0]
+    senv = _fn_env(send)
+    calls = [n for n in ast.walk(send) if isinstance(n, ast.Call) and isinstance(n.func, ast.Attribute) and n.func.attr == "build_request"]
+    if len(calls) != 1 or calls[0].args:
+        raise GenError("CIPDriver.send: build_request is not called once with keyword arguments only")
+    # keyword arguments given directly and/or through `**<dict literal or a local bound to one>`
+    pairs = []
+    for k in calls[0].keywords:
+        if k.arg is not None:
+            pairs.append((k.arg, k.value))
+            continue
+        d = _deref(k.value, senv)
+        if not isinstance(d, ast.Dict):
+            raise GenError("CIPDriver.send: build_request(**x) where x is not a dict literal")
+        for dk, dv in zip(d.keys, d.values):
+            if not (isinstance(dk, ast.Constant) and isinstance(dk.value, str)):
+                raise GenError("CIPDriver.send: non-literal keyword name")
+            pairs.append((dk.value, dv))
     kw = {}
-    for k, v in zip(d.keys, d.values):
-        if not (isinstance(k, ast.Constant) and isinstance(k.value, str)):
-            raise GenError("CIPDriver.send: non-literal keyword name")
-        kw[k.value] = _src(v, f"CIPDriver.send[{k.value}]")
+    for name, v in pairs:
+        if name in kw:
+            raise GenError(f"CIPDriver.send: keyword {name} given twice")
+        kw[name] = _src(v, f"CIPDriver.send[{name}]", senv)
     need = {"target_cid", "session_id", "context", "option"}
     if not need <= set(kw):
         raise GenError(f"CIPDriver.send: keyword arguments {sorted(need - set(kw))} missing")
-    # that dict must be what build_request receives: `request.build_request(**<that name>)`
-    calls = [n for n in ast.walk(send) if isinstance(n, ast.Call) and isinstance(n.func, ast.Attribute) and n.func.attr == "build_request"]
-    if len(calls) != 1 or calls[0].args or len(calls[0].keywords) != 1 or calls[0].keywords[0].arg is not None:
-        raise GenError("CIPDriver.send: build_request is not called once as build_request(**kwargs)")
     # _register_session builds RegisterSessionRequestPacket(self._cfg["protocol version"])
     reg = _method(cls, "_register_session")
+    renv = _fn_env(reg)
     rc = [n for n in ast.walk(reg) if isinstance(n, ast.Call) and isinstance(n.func, ast.Name) and n.func.id == "RegisterSessionRequestPacket"]
-    if len(rc) != 1 or len(rc[0].args) != 1 or rc[0].keywords or _src(rc[0].args[0], "_register_session") != "CfgProtocolVersion":
+    ok = len(rc) == 1
+    if ok:
+        args = list(rc[0].args) + [k.value for k in rc[0].keywords if k.arg == "protocol_version"]
+        ok = len(args) == 1 and len(rc[0].args) + len(rc[0].keywords) == 1 and _src(args[0], "_register_session", renv) == "CfgProtocolVersion"
+    if not ok:
         raise GenError("CIPDriver._register_session: RegisterSessionRequestPacket(self._cfg[\"protocol version\"]) not found")
     return cfgv, inits, kw
 
